@@ -168,14 +168,19 @@ pub proof fn lemma_norm_fits(b: int, p: nat, mm: int, e: int, s1: int, e1: int)
 /// `Repr::new(mm, e)` followed by `repr_round` inside one call chain (the intermediate repr cannot be named): any
 /// normalized representation of mm * b^e with 0 <= mm <= b^p is finite, in range, and fits p digits
 pub proof fn lemma_new_fits(b: int, p: nat, mm: int, e: int)
-    requires b >= 2, p >= 1, 0 <= mm, mm <= ipow(b, p), e + p + 1 <= isize::MAX, p + 1 <= isize::MAX
+    requires b >= 2, p >= 1, 0 <= mm, mm <= ipow(b, p), e + p + 1 <= isize::MAX, p + 1 <= isize::MAX, pos_room(p as int)
     ensures
+        // resource limits of `Repr::new(mm, e)` and of the `repr_round` that follows
+        exp_room(e, ndigits(b, mm) as int),
         forall|s1: int, e1: int| #[trigger] same_value(b, s1, e1, mm, e) && (s1 == 0 || s1 % b != 0) && (mm == 0 ==> s1 == 0 && e1 == 0)
-            ==> !(s1 == 0 && e1 != 0) && e1 + ndigits(b, s1) <= isize::MAX && ndigits(b, s1) <= isize::MAX && ndigits(b, s1) <= p,
+            ==> !(s1 == 0 && e1 != 0) && e1 + ndigits(b, s1) <= isize::MAX && ndigits(b, s1) <= isize::MAX && ndigits(b, s1) <= p
+                && pos_room(ndigits(b, s1) as int),
 {
     broadcast use ax_ndigits;
+    lemma_ndigits_le_pow(b, mm, p);
     assert forall|s1: int, e1: int| #[trigger] same_value(b, s1, e1, mm, e) && (s1 == 0 || s1 % b != 0) && (mm == 0 ==> s1 == 0 && e1 == 0)
-        implies !(s1 == 0 && e1 != 0) && e1 + ndigits(b, s1) <= isize::MAX && ndigits(b, s1) <= isize::MAX && ndigits(b, s1) <= p by {
+        implies !(s1 == 0 && e1 != 0) && e1 + ndigits(b, s1) <= isize::MAX && ndigits(b, s1) <= isize::MAX && ndigits(b, s1) <= p
+            && pos_room(ndigits(b, s1) as int) by {
         assert(norm_of(b, mm, e, s1, e1));
         lemma_norm_of(b, mm, e, s1, e1);
         lemma_norm_fits(b, p, mm, e, s1, e1);
